@@ -612,4 +612,71 @@ mod verif_driver_reduce {
       }
         println!("VERIF-CASES fn=reduce n={n}");
     }
+
+    // ---- C07 with the input stage: arguments, input UTxOs, fees and compiler built-ins in EVERY order (24), with and
+    // without intermediate reductions, give the same reduced transaction - for operands that mix an input with a parameter,
+    // e.g. an asset whose class is read from an input's datum while its amount is an argument (constant long before the
+    // inputs arrive), the value of an input plus an argument, the value of an input minus the fee.
+    // BOUND: 4 leaves x 31 wrappers x 18 positions of Tx x 24 stage orders x 2 interleavings.
+    #[test]
+    fn stages_with_inputs_commute() {
+        use crate::model::assets::CanonicalAssets;
+        use crate::model::core::{Utxo, UtxoRef};
+        let mut n = 0;
+        let q = || query_marker("q");
+        let datum_field = |k: i128| Expression::EvalBuiltIn(Box::new(BuiltInOp::Property(Expression::EvalCoerce(Box::new(Coerce::IntoDatum(q()))), num(k))));
+        let value_of_q = || Expression::EvalCoerce(Box::new(Coerce::IntoAssets(q())));
+        let ada = |e: Expression| Expression::Assets(vec![AssetExpr { policy: Expression::None, asset_name: Expression::None, amount: e }]);
+        let leafs = vec![
+            ("asset(q.datum[0], q.datum[1], p)", Expression::Assets(vec![AssetExpr { policy: datum_field(0), asset_name: datum_field(1), amount: marker("p") }])),
+            ("asset(q.datum[0], \"T\", 3) + ada(2)", Expression::EvalBuiltIn(Box::new(BuiltInOp::Add(Expression::Assets(vec![AssetExpr { policy: datum_field(0), asset_name: Expression::Bytes(b"T".to_vec()), amount: num(3) }]), ada(num(2)))))),
+            ("q + ada(p)", Expression::EvalBuiltIn(Box::new(BuiltInOp::Add(value_of_q(), ada(marker("p")))))),
+            ("q - fees", Expression::EvalBuiltIn(Box::new(BuiltInOp::Sub(value_of_q(), fee_marker())))),
+        ];
+        let args = BTreeMap::from([("p".to_string(), ArgValue::Int(5)), ("q_addr".to_string(), ArgValue::Address(vec![0x61; 29]))]);
+        let set: HashSet<Utxo> = HashSet::from([Utxo { r#ref: UtxoRef { txid: vec![1; 32], index: 0 }, address: vec![0x61; 29], script: None, assets: CanonicalAssets::from_naked_amount(7_000_000),
+            datum: Some(Expression::Struct(StructExpr { constructor: 0, fields: vec![Expression::Bytes(vec![9; 28]), Expression::Bytes(b"N".to_vec())] })) }]);
+        let inputs = BTreeMap::from([("q".to_string(), set)]);
+        let mut orders: Vec<Vec<u8>> = vec![];
+        for a in 0..4u8 { for b in 0..4u8 { for c in 0..4u8 { for d in 0..4u8 {
+            let o = vec![a, b, c, d]; let mut sorted = o.clone(); sorted.sort(); if sorted == vec![0, 1, 2, 3] { orders.push(o); }
+        } } } }
+        for (lname, leaf) in leafs {
+            for (wname, wexpr) in wrappers(leaf.clone()) {
+                if wname.starts_with("Coerce.Into") || wname.starts_with("Query.") { continue; } // type errors / queries nested in queries
+                for (pos, tx) in tx_positions(wexpr.clone()) {
+                    n += 1;
+                    let input = format!("{lname} at Tx.{pos} inside {wname}");
+                    let run = |order: &[u8], interleave: bool| -> Result<String, String> {
+                        let mut t = tx.clone();
+                        for s in order {
+                            t = match s {
+                                0 => apply_args(t, &args).map_err(|e| format!("{e:?}"))?,
+                                1 => apply_fees(t, 9).map_err(|e| format!("{e:?}"))?,
+                                2 => t.apply(&mut TipVisitor).map_err(|e| format!("{e:?}"))?,
+                                _ => apply_inputs(t, &inputs).map_err(|e| format!("{e:?}"))?,
+                            };
+                            if interleave { t = reduce(t).map_err(|e| format!("{e:?}"))?; }
+                        }
+                        let t = reduce(t).map_err(|e| format!("{e:?}"))?;
+                        Ok(canon_tx(t))
+                    };
+                    let base = quiet(|| run(&[0, 3, 1, 2], false));
+                    'orders: for order in &orders {
+                        for inter in [false, true] {
+                            let r = quiet(|| run(order, inter));
+                            match (&base, &r) {
+                                (Ok(Ok(a)), Ok(Ok(b))) if a == b => {}
+                                (Ok(Err(_)), Ok(Err(_))) => {}
+                                (Err(a), Err(b)) if a == b => {}
+                                _ => { witness("c07_reduce/reduce#postcondition", "reduce", format!("{input} order={order:?} (0 args, 1 fees, 2 compiler, 3 inputs) interleave={inter} class=stage-order-with-inputs"), format!("{:?} vs {:?}", base.as_ref().map(|x| x.as_ref().map(|s| s.chars().take(60).collect::<String>())), r.as_ref().map(|x| x.as_ref().map(|s| s.chars().take(60).collect::<String>()))).chars().take(300).collect(), "the same reduced transaction in every stage order"); break 'orders; }
+                            }
+                        }
+                    }
+                }
+            }
+        }
+        println!("VERIF-CASES fn=reduce n={n}");
+        println!("VERIF-CASES fn=apply_inputs n={n}");
+    }
 }
